@@ -61,6 +61,13 @@ def make(cfg, arg):
         return Tableau(cfg['logic'], arg, **opts)
     if cfg['mode'] == 'manual':
         return Tableau(cfg['logic'], arg, auto_build_trunk=False, **opts)
+    if cfg['mode'] == 'hand':
+        # no argument, no trunk: one branch holding copies of the nodes the trunk of `arg` would have had
+        t = Tableau(cfg['logic'], auto_build_trunk=False, **opts)
+        b = t.branch()
+        for nd in Tableau(cfg['logic'], arg)[0]:
+            b.append(dict(nd))
+        return t
     return Tableau(cfg['logic'], **opts)
 
 
@@ -111,15 +118,20 @@ def main(seqs, configs, out, shard, nshards):
                 cfg = dict(cfg, T=max(1.0, round((_clock[0] - t0) * 1000 / 3)))
                 if len(ref.history) < 3:
                     continue
+            hand = cfg['mode'] == 'hand'
+            if hand:
+                ref = make(dict(cfg, limit=-1, tmo=0), arg).build()
             base = registry(cfg['logic']).Rules.closure[0]
             for s in seqs:
+                if hand and any(c not in ('step', 'finish', 'build') for c in s['calls']):
+                    continue
                 n += 1
                 if n % nshards != shard:
                     continue
                 Extra = base
                 _nset[0] = 0
                 t = make(cfg, arg)
-                rec = {'id': f"{ci}/{s['id']}", 'mode': cfg['mode'], 'n': len(ref.history), 'valid': int(bool(ref.valid)),
+                rec = {'id': f"{ci}/{s['id']}", 'mode': cfg['mode'], 'n': len(ref.history), 'valid': -1 if hand else int(bool(ref.valid)),
                        'limit': cfg['limit'], 'tmo': cfg['tmo'], 'logic': cfg['logic'], 'argstr': cfg['argstr'],
                        'obs0': obs(t), 'calls': []}
                 for call in s['calls']:
